@@ -153,14 +153,30 @@ class PathWalker:
         """stop(bid, term) -> truthy ends the path at that block (inclusive). Returns list of (blocks, conds, stopval)."""
         out = []
         seen_states = set()
-        stack = [(start, (start,), ())]
+        stack = [(start, (start,), (), frozenset())]
         while stack:
-            bid, path, conds = stack.pop()
-            key = (bid, conds)
+            bid, path, conds, env = stack.pop()
+            key = (bid, conds, env)
             if key in seen_states:
                 continue
             seen_states.add(key)
+            # boolean constants assigned along this path (lowering of matches!/&&/|| and drop flags)
+            envd = dict(env)
+            for s in self.body.blocks[bid]["stmts"]:
+                if s["k"] == "assign" and not s["lhs"]["proj"]:
+                    l = s["lhs"]["l"]
+                    rv = s["rhs"]
+                    if rv["k"] == "use" and rv["a"]["k"] == "const" and rv["a"].get("ty") == "bool" and "v" in rv["a"]:
+                        envd[l] = int(rv["a"]["v"])
+                    elif rv["k"] == "use" and rv["a"]["k"] in ("copy", "move") and not rv["a"]["p"]["proj"] and rv["a"]["p"]["l"] in envd:
+                        envd[l] = envd[rv["a"]["p"]["l"]]
+                    else:
+                        envd.pop(l, None)
+            env = frozenset(envd.items())
             t = self.body.blocks[bid]["term"]
+            if t["k"] == "call" and t["dest"]["l"] in envd:
+                envd.pop(t["dest"]["l"], None)
+                env = frozenset(envd.items())
             sv = stop(bid, t)
             if sv:
                 out.append((path, conds, sv))
@@ -171,7 +187,13 @@ class PathWalker:
             if not succs:
                 out.append((path, conds, ("end", t["k"])))
                 continue
-            if t["k"] == "switch" and (record_exp or not t.get("exp")):
+            if t["k"] == "switch" and op_local(t["discr"]) in envd and not t["discr"]["p"]["proj"]:
+                v = envd[op_local(t["discr"])]
+                tg = [bb for val, bb in t["targets"] if int(val) == v]
+                bb = tg[0] if tg else t["otherwise"]
+                if bb not in path:
+                    stack.append((bb, path + (bb,), conds, env))
+            elif t["k"] == "switch" and (record_exp or not t.get("exp")):
                 tg = {}
                 for v, bb in t["targets"]:
                     tg.setdefault(bb, False)
@@ -182,10 +204,10 @@ class PathWalker:
                     if self.body.blocks[bb]["term"]["k"] == "unreachable" and not self.body.blocks[bb]["stmts"]:
                         continue
                     c = self.cond_for(bid, bb, bb == t["otherwise"] and not any(x[1] == bb for x in t["targets"]))
-                    stack.append((bb, path + (bb,), conds + (c,)))
+                    stack.append((bb, path + (bb,), conds + (c,), env))
             else:
                 for bb in succs:
                     if bb in path:
                         continue
-                    stack.append((bb, path + (bb,), conds))
+                    stack.append((bb, path + (bb,), conds, env))
         return out
